@@ -837,7 +837,10 @@ static int process_argv (int argc, hawk_bch_t* argv[], struct arg_t* arg)
 				arg->gvm.ptr[arg->gvm.size].idx = -1;
 				arg->gvm.ptr[arg->gvm.size].uc = 0;
 				arg->gvm.ptr[arg->gvm.size].name = opt.arg;
-				arg->gvm.ptr[arg->gvm.size].value.ptr = ++eq;
+				/* the value is taken as if it were a string token in the source.
+				 * interpret the escape sequences like the var=value operands do */
+				hawk_unescape_bcstr (++eq);
+				arg->gvm.ptr[arg->gvm.size].value.ptr = eq;
 				arg->gvm.ptr[arg->gvm.size].value.len = hawk_count_bcstr(eq);
 				arg->gvm.size++;
 				break;
